@@ -65,11 +65,14 @@ class Report(object):
         self.not_decided: List[str] = []
         self.extra: Dict[str, object] = OrderedDict()
         self.floors: Dict[str, int] = {}
+        self.skip = set()  # rule names not part of the property being decided
         self.assumptions: List[str] = []
 
     # -- recording ----------------------------------------------------------
 
     def ob(self, rule, construct, ok, detail="", where="", region=None):
+        if rule in self.skip:
+            return True  # a lemma's side obligation that is not part of this property
         o = Obligation(rule, construct, bool(ok), detail, where, region)
         self.obs.append(o)
         return o.ok
@@ -80,7 +83,8 @@ class Report(object):
     def floor(self, rule: str, n: int):
         """instance floor: fewer than n obligations of this rule is an
         analysis error (a rule matching nothing passes vacuously forever)."""
-        self.floors[rule] = n
+        if rule not in self.skip:
+            self.floors[rule] = n
 
     def count(self, rule: str) -> int:
         return sum(1 for o in self.obs if o.rule == rule)
